@@ -505,10 +505,10 @@ where
                                     ..
                                 }) => Box::new(Expr::JSXEmpty(*expr)),
                                 JSXAttrValue::JSXElement(element) => {
-                                    Box::new(Expr::JSXElement(element.clone()))
+                                    Box::new(self.transform_jsx_element(element))
                                 }
                                 JSXAttrValue::JSXFragment(fragment) => {
-                                    Box::new(Expr::JSXFragment(fragment.clone()))
+                                    Box::new(self.transform_jsx_fragment(fragment))
                                 }
                             })
                             .unwrap_or_else(|| {
